@@ -14,7 +14,7 @@ RULE = ('Hypothesis draws chains of 1..5 sub_context(**kw) calls, each changing 
         'characters, macro_alpha_chars), including no-op calls and changing a field back. For the '
         'final derived state D and fresh = ParsingState(**D.get_fields()), token sequences '
         '(strict and tolerant LatexTokenReader) and parse_content dumps are compared on every '
-        'string of <= 3 tokens (thorough: <= 4) over an alphabet containing every delimiter '
+        'string of <= 3 tokens over an alphabet containing every delimiter '
         'configured anywhere in the chain plus a, space, \\, %; the parent\'s get_fields() and token '
         'sequences must be unchanged by deriving. Non-trivial = chain that changes a delimiter list '
         'while in math mode, or changes one field group while another stays; distinct by chain.')
@@ -336,7 +336,7 @@ FAMILIES = {
 
 
 def plan(tier, seed):
-    n, L = (320, 3) if tier == 'quick' else (6400, 4)
+    n, L = (320, 3) if tier == 'quick' else (3200, 3)     # thorough: ~18M string cases
     shards = [('chains', n // NSHARDS, L, seed * 1000 + k) for k in range(NSHARDS)]
     shards += [('enum', 2 if tier == 'quick' else 3, 2, k) for k in range(NSHARDS)]
     shards += [('enumcore', 3 if tier == 'quick' else 4, 2, k) for k in range(NSHARDS)]
